@@ -50,7 +50,12 @@ class CoverpointBinArrayModel(CoverpointBinModelBase):
         )
     
     def get_bin_name(self, bin_idx):
-        return self.name + "[" + str(self.bin_idx_base+bin_idx) + "]"
+        # Bins are numbered from the start of the enclosing bin
+        # specification, not from the start of the coverpoint
+        base = 0
+        if isinstance(self.parent, CoverpointBinModelBase):
+            base = self.bin_idx_base - self.parent.bin_idx_base
+        return self.name + "[" + str(base+bin_idx) + "]"
             
     def sample(self):
         # Query value from the actual coverpoint or expression
